@@ -163,6 +163,7 @@ type SrvFid struct {
 	fid       uint32
 	refcount  int
 	bound     bool        // True while the connection's fid table holds a reference of its own
+	pending   bool        // True from FidNew until the request creating the fid has succeeded
 	opened    bool        // True if the SrvFid is opened
 	Fconn     *Conn       // Connection the SrvFid belongs to
 	Omode     uint8       // Open mode (O* flags), if the fid is opened
@@ -471,9 +472,22 @@ func (conn *Conn) FidGet(fidno uint32) *SrvFid {
 	conn.Lock()
 	fid, present := conn.fidpool[fidno]
 	conn.Unlock()
-	if present {
-		fid.IncRef()
+	if !present {
+		return nil
 	}
+
+	fid.Lock()
+	if fid.pending {
+		/*
+		 * the Tauth, Tattach or Twalk creating the fid is not answered
+		 * yet: the fid does not exist for other requests, and the file
+		 * server may not have set it up (Aux)
+		 */
+		fid.Unlock()
+		return nil
+	}
+	fid.refcount++
+	fid.Unlock()
 
 	return fid
 }
@@ -492,6 +506,7 @@ func (conn *Conn) FidNew(fidno uint32) *SrvFid {
 	fid := new(SrvFid)
 	fid.fid = fidno
 	fid.refcount = 1
+	fid.pending = true
 	fid.Fconn = conn
 	conn.fidpool[fidno] = fid
 	conn.Unlock()
@@ -538,14 +553,13 @@ func (fid *SrvFid) DecRef() {
 func (fid *SrvFid) bind() {
 	conn := fid.Fconn
 	conn.Lock()
-	if !conn.closed {
-		fid.Lock()
-		if !fid.bound {
-			fid.bound = true
-			fid.refcount++
-		}
-		fid.Unlock()
+	fid.Lock()
+	fid.pending = false
+	if !conn.closed && !fid.bound {
+		fid.bound = true
+		fid.refcount++
 	}
+	fid.Unlock()
 	conn.Unlock()
 }
 
